@@ -189,7 +189,7 @@ pub fn run_inv(env: &Env, inv: &Inv) -> io::Result<Outcome> {
         .env("HOME", env.home())
         .envs(inv.env.iter().map(|(k, v)| (k.as_str(), v.as_str())))
         .env("RUST_BACKTRACE", "0")
-        .stdin(if uses_dev_stdin { Stdio::piped() } else { Stdio::from(File::open(&stdin_p)?) })
+        .stdin(if uses_dev_stdin { Stdio::piped() } else { stdin_carrier(inv, &stdin_p)? })
         .stdout(Stdio::from(File::create(&stdout_p)?))
         .stderr(Stdio::from(File::create(&stderr_p)?));
     // no pre_exec: std then uses posix_spawn (no page-table copy, no mmap_lock contention between
@@ -231,6 +231,51 @@ pub fn run_inv(env: &Env, inv: &Inv) -> io::Result<Outcome> {
         trace: parse_trace(&trace_raw),
         trace_raw,
     })
+}
+
+/// What standard input is, for an invocation that reads it (chosen by the invocation's own
+/// seed, so a replay gets the same): mostly a regular file at offset 0; sometimes a regular file
+/// whose beginning somebody else has already consumed through the shared descriptor
+/// (`{ read -r header; typstyle; } < file`) - the document starts at the current offset, not at
+/// byte 0 of the file; a pipe; a UNIX socket (what libuv-based tools give a child). Pipe and
+/// socket are filled completely and closed before the child starts, so the sizes its reads
+/// return do not depend on timing.
+fn stdin_carrier(inv: &Inv, stdin_p: &Path) -> io::Result<Stdio> {
+    use std::io::{Seek, SeekFrom, Write};
+    use std::os::fd::FromRawFd;
+    let bytes: &[u8] = inv.stdin.as_ref().map(|b| b.0.as_slice()).unwrap_or(&[]);
+    let reads_stdin = matches!(inv.shape, super::types::Shape::Stdin { .. });
+    let pick = if reads_stdin { inv.shim_seed % 8 } else { 7 };
+    match pick {
+        0 => {
+            let prefix = b"#let   zqconsumed  =  ( 1,2 ,3 )\n";
+            let mut f = File::options().read(true).write(true).create(true).truncate(true).open(stdin_p)?;
+            f.write_all(prefix)?;
+            f.write_all(bytes)?;
+            f.seek(SeekFrom::Start(prefix.len() as u64))?;
+            Ok(Stdio::from(f))
+        }
+        1..=3 if bytes.len() <= 60_000 => {
+            let mut fds = [0 as libc::c_int; 2];
+            let r = unsafe {
+                if pick == 1 {
+                    libc::socketpair(libc::AF_UNIX, libc::SOCK_STREAM | libc::SOCK_CLOEXEC, 0, fds.as_mut_ptr())
+                } else {
+                    libc::pipe2(fds.as_mut_ptr(), libc::O_CLOEXEC)
+                }
+            };
+            if r != 0 {
+                return Err(io::Error::last_os_error());
+            }
+            let mut w = unsafe { File::from_raw_fd(fds[1]) };
+            let res = w.write_all(bytes);
+            drop(w);
+            let rd = unsafe { Stdio::from_raw_fd(fds[0]) };
+            res?;
+            Ok(rd)
+        }
+        _ => Ok(Stdio::from(File::open(stdin_p)?)),
+    }
 }
 
 /// normalised log identity of one invocation: trace + exit + stdout/stderr with the world
